@@ -23,6 +23,7 @@ func init() {
 		ruleG4(c, "C06.L7")
 		ruleL8(c, "C06.L8")
 		ruleL9(c, "C06.L9")
+		ruleL10(c, "C06.L10")
 	}
 }
 
@@ -700,4 +701,115 @@ func soleAcquisition(c *Ctx, in ssa.Instruction) bool {
 		}
 	}
 	return true
+}
+
+// ruleL10: a retry loop that waits for "the inode was freed since the lookup"
+// can only end if what it locks can exist.  A number that came out of a name
+// lookup and is handed to a locking function inside a cycle must be known not
+// to be the null number there: inode 0 is never allocated, GetInodeInum(0) is
+// nil for ever, and the loop would retry the same names for ever.
+func ruleL10(c *Ctx, id string) {
+	V, P, R := c.V, c.P, c.R
+	R.Rule(id, "retries can end: inside a cycle, an inode number that is the result of dir.LookupName reaches a locking function (lockInodes, lookupOrdered, the acquirers) only on paths where it was found not to be NULLINUM", 3)
+	lookup := c.fn(id, "dir.LookupName")
+	lockIn := c.fn(id, "nfs.lockInodes")
+	if lookup == nil || lockIn == nil {
+		return
+	}
+	lookupOrd := P.Func("nfs.lookupOrdered")
+	// the lookup a value comes from
+	fromLookup := func(v ssa.Value) *ssa.Call {
+		for src := range bwdSources(v) {
+			if ex, ok := src.(*ssa.Extract); ok && ex.Index == 0 {
+				if cl, ok := ex.Tuple.(*ssa.Call); ok && cl.Call.StaticCallee() == lookup {
+					return cl
+				}
+			}
+		}
+		return nil
+	}
+	for _, fn := range P.RepoFuncs("nfs") {
+		for _, b := range fn.Blocks {
+			for _, in := range b.Instrs {
+				call, ok := in.(*ssa.Call)
+				if !ok {
+					continue
+				}
+				cal := call.Call.StaticCallee()
+				if cal == nil || !(cal == lockIn || (lookupOrd != nil && cal == lookupOrd) || V.Acquirers[cal]) {
+					continue
+				}
+				if !reachableFrom(call, call) {
+					continue // not in a cycle: a nil answer is an error reply, not a retry
+				}
+				// the numbers handed over: integer arguments, and the elements of a slice built here
+				var nums []ssa.Value
+				for _, a := range call.Call.Args {
+					a = stripConv(a)
+					if bt, isB := a.Type().Underlying().(*types.Basic); isB && bt.Info()&types.IsInteger != 0 {
+						nums = append(nums, a)
+					}
+					if _, isS := a.Type().Underlying().(*types.Slice); isS {
+						for src := range bwdSources(a) {
+							for _, r := range refs(src) {
+								if ia, isIA := r.(*ssa.IndexAddr); isIA {
+									for _, r2 := range refs(ia) {
+										if st, isSt := r2.(*ssa.Store); isSt && st.Addr == ssa.Value(ia) {
+											nums = append(nums, stripConv(st.Val))
+										}
+									}
+								}
+							}
+							// built by a helper from its integer arguments (twoInums(a, b))
+							if hc, isC := src.(*ssa.Call); isC && hc.Call.StaticCallee() != nil && isPrivateHelper(hc.Call.StaticCallee()) {
+								for _, ha := range hc.Call.Args {
+									if bt, isB := ha.Type().Underlying().(*types.Basic); isB && bt.Info()&types.IsInteger != 0 {
+										nums = append(nums, stripConv(ha))
+									}
+								}
+							}
+						}
+					}
+				}
+				callOrd := 0
+				for _, o := range P.CallsIn(fn, funcIs(cal)) {
+					if o.Pos() < call.Pos() {
+						callOrd++
+					}
+				}
+				seenLk := map[*ssa.Call]bool{}
+				for _, v := range nums {
+					lk := fromLookup(v)
+					if lk == nil || seenLk[lk] {
+						continue
+					}
+					seenLk[lk] = true
+					// which lookup: its ordinal among the lookups of the function, in source order
+					i := 0
+					for _, o := range P.CallsIn(fn, funcIs(lookup)) {
+						if o.Pos() < lk.Pos() {
+							i++
+						}
+					}
+					g := guardedBy(fn, call.Block(), func(cd Cond) (bool, bool) {
+						if (cd.Op != token.EQL && cd.Op != token.NEQ) || cd.X == nil || cd.Y == nil {
+							return false, false
+						}
+						x, y := cd.X, cd.Y
+						if k, isk := constInt(stripConv(x)); isk && k == 0 {
+							x, y = y, x
+						}
+						if k, isk := constInt(stripConv(y)); !isk || k != 0 {
+							return false, false
+						}
+						if fromLookup(x) != lk {
+							return false, false
+						}
+						return true, cd.Op == token.NEQ
+					})
+					R.Check(g, id, fmt.Sprintf("%s|number of lookup #%d handed to %s#%d is not null", FuncName(ownerOf(fn)), i, cal.Name(), callOrd), P.Pos(call.Pos()), "the call is reached only on paths where the looked-up number was compared with NULLINUM and differs", "dominated by the != NULLINUM side", "a name that does not exist gives the null number; locking it fails for ever, and the surrounding loop takes that for 'freed since the lookup' and retries without end - the RPC never returns and keeps a CPU busy")
+				}
+			}
+		}
+	}
 }
